@@ -108,7 +108,12 @@ def _worker(args):
         mod = _G["module"]
         res = mod.run_family(_G["facts"], fam, tier)
         return {"family": fam, "results": res, "seconds": time.time() - t0}
-    except Exception:
+    except Exception as ex:
+        if type(ex).__name__ in ("SummaryFailed", "Unsupported", "RegexUnsupported"):
+            # outside the supported subset: the family is undecided, not a checker crash
+            return {"family": fam, "seconds": time.time() - t0,
+                    "results": [{"name": f"{prop_name}:{fam}:unsupported", "clause": "unsupported", "status": "undecided",
+                                 "seconds": time.time() - t0, "reason": str(ex)[:300]}]}
         return {"family": fam, "results": [], "seconds": time.time() - t0,
                 "crash": traceback.format_exc()[-3000:]}
 
